@@ -185,7 +185,7 @@ class Budget(Exception):
     pass
 
 
-def run_table(table, dynamics, graph, oracle, rec=None, budget=400, prerun=False):
+def run_table(table, dynamics, graph, oracle, rec=None, budget=400, prerun=False, abort_first=False):
     """Run the table under 'stochastic' or 'synchronous' dynamics; returns the Recorder and results."""
     import epydemic
     import epydemic.stochasticdynamics as sd
@@ -193,8 +193,12 @@ def run_table(table, dynamics, graph, oracle, rec=None, budget=400, prerun=False
     rec = rec or Recorder()
     procs = [ScriptProcess(pi, table, rec) for pi in range(len(table['procs']))]
     proc = procs[0] if len(procs) == 1 else ProcessSequence(procs)
-    for p in procs:
-        p.setMaximumTime(table['maxtime'])
+    def set_maxtimes(tb):
+        # a component may have a SHORTER maximum time of its own: a sequence runs until all its components are at
+        # equilibrium, and until then every component's events keep firing
+        for p, pr in zip(procs, tb['procs']):
+            p.setMaximumTime(tb['maxtime'] * pr.get('maxfrac', 1.0))
+    set_maxtimes(table)
     cls = epydemic.StochasticDynamics if dynamics == 'stochastic' else epydemic.SynchronousDynamics
     dyn = cls(proc, graph)
     rec.dyn = dyn
@@ -220,6 +224,29 @@ def run_table(table, dynamics, graph, oracle, rec=None, budget=400, prerun=False
                                  'chosen': [[l.name(), e, name] for (l, e, ef, name) in evs]})
             return evs
         dyn.allEventsInTimestep = all_events
+    if abort_first:
+        # an earlier run on the same objects that is abandoned INSIDE set-up, after every component has been built and set
+        # up (events posted): epyc tears no such run down, and the observed run must start from a clean slate all the same
+        from vlib.oracle import Oracle as _Oracle
+        install(_Oracle(seed=54321))
+        last = procs[-1]
+        orig_setup = last.setUp
+
+        def abandoned(params_):
+            orig_setup(params_)
+            raise RuntimeError('set-up abandoned by the harness')
+        last.setUp = abandoned
+        try:
+            dyn.set({}).run(fatal=True)
+        except Exception:
+            pass
+        finally:
+            del last.setUp
+        del rec.obs[:]
+        del rec.ids[:]
+        del rec.draws[:]
+        del rec.logs[:]
+        del rec.tranches[:]
     if prerun:
         # an earlier run on the SAME experiment object with other random choices: by C10 it must not influence
         # the observed run (queue, ids, clock, loci, event tables all start afresh)
@@ -243,7 +270,7 @@ def run_table(table, dynamics, graph, oracle, rec=None, budget=400, prerun=False
                 halve(pg)
             for p in procs:
                 p.table = pre
-                p.setMaximumTime(pre['maxtime'])
+            set_maxtimes(pre)
         try:
             dyn.set({}).run(fatal=True)
         except Exception:
@@ -251,7 +278,7 @@ def run_table(table, dynamics, graph, oracle, rec=None, budget=400, prerun=False
         if pre is not None:
             for p in procs:
                 p.table = table
-                p.setMaximumTime(table['maxtime'])
+            set_maxtimes(table)
         del rec.obs[:]
         del rec.ids[:]
         del rec.draws[:]
